@@ -604,6 +604,85 @@ def cross_pipeline(R: Run, geom, GeoBox, GeoboxTiles, Affine):
                  f"boundary pixel corners outside the extent's bounding box: {out[:5]}", sig="xpipe|gcp-bbox")
 
 
+def codeless_crs(R: Run, geom, GeoBox, GeoboxTiles, Affine):
+    """Pairs of DIFFERENT CRSs that have no EPSG code (sinusoidal, custom LAEA / AEA / transverse-mercator PROJ strings,
+    custom WKT), every object built FRESH from the spec text for the case and not touched before the call under test
+    (no .epsg / hash / equality on it): tile queries across the pair and the dependency graph, judged by brute force
+    with a pyproj Transformer made from the spec texts themselves."""
+    import shapely.geometry as sg
+    from pyproj import CRS as PCRS
+    from shapely import ops
+
+    from .c12 import dense_dep_oracle, shared_transformer
+
+    rng = R.rng
+    lon0, lat0 = rng.choice([(134, -25), (15, 50), (-100, 40), (25, -28)])
+    dl = rng.choice([0, 3, -4])
+    specs = {
+        "sinu": "+proj=sinu +lon_0=0 +x_0=0 +y_0=0 +R=6371007.181 +units=m +no_defs",
+        "laea": f"+proj=laea +lat_0={lat0} +lon_0={lon0 + dl} +x_0=0 +y_0=0 +ellps=GRS80 +units=m +no_defs",
+        "laea2": f"+proj=laea +lat_0={lat0 + 2} +lon_0={lon0 - 3} +x_0=1000 +y_0=0 +datum=WGS84 +units=m +no_defs",
+        "aea": f"+proj=aea +lat_1={lat0 - 7} +lat_2={lat0 + 7} +lat_0={lat0} +lon_0={lon0} +x_0=0 +y_0=0 +ellps=GRS80 +units=m +no_defs",
+        "tmerc": f"+proj=tmerc +lat_0={lat0} +lon_0={lon0 + 1} +k=0.9996 +x_0=500000 +y_0=0 +datum=WGS84 +units=m +no_defs",
+    }
+    specs["wkt"] = PCRS.from_user_input(f"+proj=laea +lat_0={lat0 - 1} +lon_0={lon0 + 2} +x_0=0 +y_0=0 +ellps=WGS84 +units=m +no_defs").to_wkt()
+    names = list(specs)
+
+    def centre(spec):
+        return shared_transformer("EPSG:4326", spec).transform(lon0, lat0)
+
+    def fresh(name, n, res, tile, shift=(0, 0)):
+        """a new tiled raster around the common centre; the CRS object is created here from the text"""
+        cx, cy = centre(specs[name])
+        A = Affine(res, 0, cx - n * res / 2 + shift[0] * res, 0, -res, cy + n * res / 2 + shift[1] * res)
+        return A, GeoboxTiles(GeoBox((n, n), A, specs[name]), (tile, tile))
+
+    def dense(poly, k=40):
+        cc = list(poly.exterior.coords)
+        pts = []
+        for (x0, y0), (x1, y1) in zip(cc[:-1], cc[1:]):
+            pts += [(x0 + (x1 - x0) * t / k, y0 + (y1 - y0) * t / k) for t in range(k)]
+        return sg.Polygon(pts)
+
+    pairs = [(a, b) for a in names for b in names if a != b]
+    rng.shuffle(pairs)
+    for qa, tb in pairs[: R.pick(8, 30)]:
+        # query given in CRS `qa` against a tiling in CRS `tb`
+        A, gbt = fresh(tb, 60, 10_000, 15)
+        cx, cy = centre(specs[qa])
+        w, h = rng.randint(8, 20) * 10_000, rng.randint(8, 20) * 10_000
+        ox, oy = rng.randint(-10, 10) * 10_000, rng.randint(-10, 10) * 10_000
+        qbox = sg.box(cx + ox - w / 2, cy + oy - h / 2, cx + ox + w / 2, cy + oy + h / 2)
+        t = shared_transformer(specs[qa], specs[tb])
+        q_in_tb = ops.transform(t.transform, dense(qbox))
+        polys = {k: tile_poly(A, r) for k, r in rects(("r", (60, 15), (60, 15))).items()}
+        inner = q_in_tb.buffer(-15_000)       # well inside: odc-geo reprojects the four corners / vertices only
+        must = sorted(k for k, p in polys.items() if not inner.is_empty and p.intersection(inner).area > 1e-3 * p.area)
+        for how in ("geom", "bbox"):
+            q = geom.Geometry(qbox, specs[qa]) if how == "geom" else geom.BoundingBox(*qbox.bounds, crs=specs[qa])
+            got = guarded(lambda: sorted(gbt.tiles(q)))
+            case = {"query_crs": qa, "tiling_crs": tb, "spec_q": specs[qa][:120], "spec_t": specs[tb][:120], "box": list(qbox.bounds), "how": how}
+            if isinstance(got, str):
+                R.oracle(False, "tiles-query-raises", case, got, sig=f"codeless|raises|{how}")
+                continue
+            miss = [k for k in must if k not in got]
+            R.oracle(not miss, "tiles-geom-misses-tile", case, f"tiles {got} miss {miss[:8]} (code-less CRS pair, fresh objects)",
+                     sig=f"codeless|tiles|{how}", trivial=not must)
+            _A2, gbt = fresh(tb, 60, 10_000, 15)      # a fresh raster for the next spelling
+    for da, sb in pairs[: R.pick(4, 16)]:
+        _Ad, dst = fresh(da, 40, 10_000, 10)
+        _As, src = fresh(sb, 100, 10_000, 25, shift=(rng.randint(-5, 5), rng.randint(-5, 5)))
+        dense_dep_oracle(R, dst, src, {"dst_crs": da, "src_crs": sb, "spec_d": specs[da][:120], "spec_s": specs[sb][:120],
+                                       "codeless": True}, sig="codeless|deps")
+        # the graph of overlapping rasters must not be empty
+        _Ad, dst2 = fresh(da, 40, 10_000, 10)
+        _As, src2 = fresh(sb, 100, 10_000, 25)
+        deps = guarded(lambda: dst2.grid_intersect(src2))
+        R.oracle(not isinstance(deps, str) and sum(len(v) for v in deps.values()) >= 16, "grid-intersect-misses-dependency",
+                 {"dst_crs": da, "src_crs": sb, "codeless": True, "nested": True},
+                 f"a 400 km raster inside a 1000 km raster around the same point: graph {str(deps)[:160]}", sig="codeless|deps-nonempty")
+
+
 def gi_stream(R: Run, geom, GeoBox, GeoboxTiles, Affine):
     spec_validation(R)
     extents(R, GeoBox, GeoboxTiles, Affine)
@@ -612,6 +691,7 @@ def gi_stream(R: Run, geom, GeoBox, GeoboxTiles, Affine):
     shape_queries(R, geom, GeoBox, GeoboxTiles, Affine)
     footprint_params(R, geom, GeoBox, GeoboxTiles, Affine)
     cross_pipeline(R, geom, GeoBox, GeoboxTiles, Affine)
+    codeless_crs(R, geom, GeoBox, GeoboxTiles, Affine)
     R.assumptions.append("Spec/ConvexDisjoint (separating-axis test) == shapely `disjoint` on convex quadrilaterals with "
                          "positive area: validated on every run (op cvx) and, implicitly, by every same-CRS gi / tq case")
 
